@@ -534,15 +534,106 @@ pub mod c18 {
     #[kani::unwind(6)]
     pub fn c18_b64_decode_inverts_n6() { decode_inverts_spec::<6, 8>(); }
 
-    /// SHA-1 padded length: ((8n + 583) / 512) * 64 is the least multiple of 64 that holds n message bytes, the 0x80
-    /// byte and the 8-byte length (RFC 3174 section 4) -- for every n below 2^56 (loop-free => complete).
-    #[kani::proof]
-    pub fn c18_sha1_padded_len_complete() {
-        let n: u64 = kani::any();
-        kani::assume(n < (1u64 << 56));
-        let code = ((n * 8 + 583) / 512) * 64;
-        assert!(code % 64 == 0 && code >= n + 9 && code < n + 9 + 64, "padded length formula");
+    /// RFC 3174 transcribed independently of sha1.rs (section 4 padding: 0x80, zeros to 56 mod 64, 64-bit big-endian bit
+    /// length; section 6.1 method 1 compression), for a message of exactly N bytes padded into B 64-byte blocks, where
+    /// B is the least number of blocks that holds N + 1 + 8 bytes -- computed here from the RFC's rule, not from the code's formula.
+    fn sha1_rfc<const N: usize, const B: usize>(m: &[u8; N]) -> [u8; 20] {
+        let mut blocks = [[0u8; 64]; B];
+        let mut i = 0;
+        while i < N { blocks[i / 64][i % 64] = m[i]; i += 1; }
+        blocks[N / 64][N % 64] = 0x80;
+        let bits = (N as u64) * 8;
+        let lb = bits.to_be_bytes();
+        let mut k = 0;
+        while k < 8 { blocks[B - 1][56 + k] = lb[k]; k += 1; }
+        let mut h: [u32; 5] = [0x67452301, 0xEFCDAB89, 0x98BADCFE, 0x10325476, 0xC3D2E1F0];
+        let mut bi = 0;
+        while bi < B {
+            let mut w = [0u32; 80];
+            let mut t = 0;
+            while t < 16 {
+                w[t] = ((blocks[bi][4 * t] as u32) << 24) | ((blocks[bi][4 * t + 1] as u32) << 16) | ((blocks[bi][4 * t + 2] as u32) << 8) | (blocks[bi][4 * t + 3] as u32);
+                t += 1;
+            }
+            while t < 80 { w[t] = (w[t - 3] ^ w[t - 8] ^ w[t - 14] ^ w[t - 16]).rotate_left(1); t += 1; }
+            let (mut a, mut b, mut c, mut d, mut e) = (h[0], h[1], h[2], h[3], h[4]);
+            let mut t = 0;
+            while t < 80 {
+                let (f, kk) = if t < 20 { ((b & c) | ((!b) & d), 0x5A827999u32) } else if t < 40 { (b ^ c ^ d, 0x6ED9EBA1u32) }
+                    else if t < 60 { ((b & c) | (b & d) | (c & d), 0x8F1BBCDCu32) } else { (b ^ c ^ d, 0xCA62C1D6u32) };
+                // RFC: TEMP = S^5(A) + f(t;B,C,D) + E + W(t) + K(t)   (terms added in the order the code uses: see DESIGN, cost)
+                let temp = a.rotate_left(5).wrapping_add(f).wrapping_add(e).wrapping_add(kk).wrapping_add(w[t]);
+                e = d; d = c; c = b.rotate_left(30); b = a; a = temp;
+                t += 1;
+            }
+            h[0] = h[0].wrapping_add(a); h[1] = h[1].wrapping_add(b); h[2] = h[2].wrapping_add(c); h[3] = h[3].wrapping_add(d); h[4] = h[4].wrapping_add(e);
+            bi += 1;
+        }
+        let mut out = [0u8; 20];
+        let mut j = 0;
+        while j < 5 { let bb = h[j].to_be_bytes(); out[4 * j] = bb[0]; out[4 * j + 1] = bb[1]; out[4 * j + 2] = bb[2]; out[4 * j + 3] = bb[3]; j += 1; }
+        out
     }
+    /// the REAL `SHA1Hash::hash` on EVERY message of exactly N bytes == RFC 3174 (padding included)
+    fn sha1_contract<const N: usize, const B: usize>() {
+        assert!(B * 64 >= N + 9 && (B - 1) * 64 < N + 9, "harness instance: B is the RFC block count for N");
+        let m: [u8; N] = kani::any();
+        let got = m.hash();
+        let want = sha1_rfc::<N, B>(&m);
+        let j: usize = kani::any();
+        kani::assume(j < 20);
+        assert!(got[j] == want[j], "SHA-1 digest equals RFC 3174 for every message of this length (padding boundary included)");
+        kani::cover!(true, "sha1 harness ran to its end");
+    }
+    /// the same obligation for ONE message per length (byte i = 0x61 + i mod 7): the padding rule depends on the length only,
+    /// so this decides section 4 (padding / block count / length field) of the REAL code for that length; cheap because CBMC
+    /// folds the constants. Labelled bounded: it says nothing about other contents.
+    fn sha1_fixed<const N: usize, const B: usize>() {
+        assert!(B * 64 >= N + 9 && (B - 1) * 64 < N + 9, "harness instance: B is the RFC block count for N");
+        let mut m = [0u8; N];
+        let mut i = 0;
+        while i < N { m[i] = 0x61 + (i % 7) as u8; i += 1; }
+        let got = m.hash();
+        let want = sha1_rfc::<N, B>(&m);
+        assert!(got == want, "SHA-1 digest equals RFC 3174 at this message length (padding boundary)");
+        kani::cover!(true, "sha1 harness ran to its end");
+    }
+    macro_rules! sha1f {
+        ($name:ident, $n:expr, $b:expr) => {
+            #[kani::proof]
+            #[kani::unwind(130)]
+            pub fn $name() { sha1_fixed::<$n, $b>(); }
+        };
+    }
+    sha1f!(c18_sha1_pad_n000, 0, 1);
+    sha1f!(c18_sha1_pad_n001, 1, 1);
+    sha1f!(c18_sha1_pad_n054, 54, 1);
+    sha1f!(c18_sha1_pad_n055, 55, 1);
+    sha1f!(c18_sha1_pad_n056, 56, 2);
+    sha1f!(c18_sha1_pad_n057, 57, 2);
+    sha1f!(c18_sha1_pad_n060, 60, 2);
+    sha1f!(c18_sha1_pad_n063, 63, 2);
+    sha1f!(c18_sha1_pad_n064, 64, 2);
+    sha1f!(c18_sha1_pad_n065, 65, 2);
+    sha1f!(c18_sha1_pad_n119, 119, 2);
+    sha1f!(c18_sha1_pad_n120, 120, 3);
+    sha1f!(c18_sha1_pad_n121, 121, 3);
+
+    macro_rules! sha1h {
+        ($name:ident, $n:expr, $b:expr) => {
+            #[kani::proof]
+            #[kani::unwind(82)]
+            pub fn $name() { sha1_contract::<$n, $b>(); }
+        };
+    }
+    sha1h!(c18_sha1_digest_n00, 0, 1);
+    sha1h!(c18_sha1_digest_n01, 1, 1);
+    sha1h!(c18_sha1_digest_n03, 3, 1);
+    sha1h!(c18_sha1_digest_n55, 55, 1);   // last length that fits one block
+    sha1h!(c18_sha1_digest_n56, 56, 2);   // first length that needs a second block (0x80 at offset 56)
+    sha1h!(c18_sha1_digest_n57, 57, 2);
+    sha1h!(c18_sha1_digest_n60, 60, 2);   // the WebSocket handshake input (24-byte key + 36-byte GUID)
+    sha1h!(c18_sha1_digest_n64, 64, 2);
 }
 
 
